@@ -6,7 +6,7 @@ from lib import Result, RMODES, OMODES, e_fmt, e_list, e_dy, model_call, run_sha
 
 RULE = ('(S) scalar Python integers up to 2^1000 into formats of 1..52 bits with 0<=n_frac<=n_word+3 (and, 15% of the cases, -8<=n_frac<0 with magnitudes around 2^53..2^64 and around the format bound) by constructor, call, set_val and indexed assignment, '
         'compared with Spec.quantize evaluated on the exact integer; magnitudes stratified around 2^31, 2^53, 2^62, 2^63, 2^64 (scaled and unscaled) and huge; '
-        '(A) add/sub/mul with optimal sizing for operand words 2..70, results up to 256 bits, codes at extremes, near extremes and random, compared with exact integers. '
+        '(A) add/sub/mul with optimal sizing for operand words 2..70, results up to 256 bits, codes at extremes, near extremes and random, compared with exact integers; 12% of the cases are integer formats holding integer values computed by the value method. '
         'Non-trivial = the scaled input or an intermediate needs more than 53 bits; distinct by full input.')
 ASSUMPTIONS = []
 
@@ -93,6 +93,8 @@ def arith_items(rng, n):
             return (rng.random() < 0.55, nw, nf)
         fxm, fym = f(), f()
         op = rng.choice('+-*')
+        intrepr = rng.random() < 0.12      # integer formats holding integer values, computed by the value method (NumPy integer arithmetic on the values)
+        if intrepr: fxm = (fxm[0], fxm[1], 0); fym = (fym[0], fym[1], 0)
         def codes(fm):
             lo, hi = S.fmt_bounds(fm[0], fm[1])
             k = rng.random()
@@ -100,6 +102,8 @@ def arith_items(rng, n):
             if k < 0.7: return [rng.choice([lo + rng.randint(0, 3), hi - rng.randint(0, 3)])]
             return [rng.randint(lo, hi)]
         cx, cy = codes(fxm), codes(fym)
+        if intrepr:
+            items.append((op, fxm, cx, None, fym, cy, None, rng.choice(['operator', 'numpy']), {'op_method': 'repr', '_build': 'intval'})); continue
         if rng.random() < 0.2:
             cx = cx + codes(fxm) + codes(fxm); cy = cy + codes(fym) + codes(fym)
             items.append((op, fxm, cx, (3,), fym, cy, (3,), rng.choice(['operator', 'func']), {}))
